@@ -69,13 +69,14 @@ def _k(*a, **kw):
 # ---- parse-time, critical (parsing of the file stops) -------------------------------------------
 _k("bad-statement-start", "parse-critical", "critical", "invalid-insn", "Â«Â») nop",
    note="empty span at the character no statement can start with")
-_k("missing-operand-after-infix", "parse-critical", "critical", "invalid-expression", ".word 1 +", where="next",
-   note="the parser skips white space and comments looking for the operand: points at the next token")
+_k("missing-operand-after-infix", "parse-critical", "critical", "invalid-expression", ".word (1 * Â«Â»)",
+   note="empty span at the token found where the right operand should be (a closing parenthesis here; white space, "
+        "newlines and comments are skipped first, so without it the next statement would be taken as the operand)")
 _k("unclosed-bracket", "parse-critical", "critical", "invalid-expression", ".word (1 + 2", where="next",
    note="points at the token found where the closing parenthesis should be")
-_k("comma-without-operand", "parse-critical", "critical", "invalid-operand", "mov r0Â«,Â»",
+_k("comma-without-operand", "parse-critical", "critical", "invalid-operand", "mov r0Â«,Â» )",
    note="first span is the comma after which no operand follows")
-_k("wordlist-comma-without-operand", "parse-critical", "critical", "invalid-operand", "w{u}9 = 1\nw{u}9Â«,Â»",
+_k("wordlist-comma-without-operand", "parse-critical", "critical", "invalid-operand", "w{u}9 = 1\nw{u}9Â«,Â» )",
    note="implicit .word list; first span is the dangling comma")
 _k("bad-hex-digits", "parse-critical", "critical", "invalid-number", ".word Â«^XÂ»zz")
 _k("bad-octal-digits", "parse-critical", "critical", "invalid-number", ".word Â«^OÂ»9")
@@ -83,18 +84,18 @@ _k("bad-binary-digits", "parse-critical", "critical", "invalid-number", ".word Â
 _k("bad-decimal-digits", "parse-critical", "critical", "invalid-number", ".word Â«^DÂ»x")
 _k("unterminated-char", "parse-critical", "critical", "unterminated-string", ".word Â«'Â»")
 _k("unterminated-char2", "parse-critical", "critical", "unterminated-string", ".word Â«\"aÂ»")
-_k("assignment-without-value", "parse-critical", "critical", "invalid-assignment", "av{u} Â«=Â»")
+_k("assignment-without-value", "parse-critical", "critical", "invalid-assignment", "av{u} Â«=Â» )")
 _k("comma-after-mnemonic", "parse-critical", "critical", "invalid-insn", "mov Â«,Â» r0")
 _k("unknown-caret-prefix", "parse-critical", "critical", "invalid-expression", ".word Â«^QÂ»1")
-_k("prefix-without-operand", "parse-critical", "critical", "invalid-expression", ".word -", where="next",
-   note="points at the token found where the operand of the prefix operator should be")
+_k("prefix-without-operand", "parse-critical", "critical", "invalid-expression", ".word (-Â«Â»)",
+   note="empty span at the token found where the operand of the prefix operator should be")
 
 # ---- parse-time, not critical -------------------------------------------------------------------
 _k("register-as-label", "parse", "error", "reserved-name", "Â«r1:Â» nop")
 _k("register-as-assignment-target", "parse", "error", "reserved-name", "Â«r2Â» = 5")
 _k("extern-local-label", "parse", "error", "invalid-extern", "Â«1::Â» nop")
 _k("unknown-escape", "parse", "error", "invalid-escape", ".ascii \"aÂ«\\qÂ»b\"")
-_k("short-hex-escape", "parse", "error", "invalid-escape", ".ascii \"abÂ«\\xzÂ»\"",
+_k("short-hex-escape", "parse", "error", "invalid-escape", ".ascii \"abÂ«\\xÂ»z\"",
    note="span runs from the backslash to where two hex digits were expected")
 _k("negative-8", "parse", "error", "invalid-number", ".word -Â«8Â»",
    note="Number tokens start after the minus sign (parser.number saves ctx_start after consuming '-')")
@@ -136,7 +137,9 @@ _k("constant-inside-repeat", "compile", "error", "unexpected-symbol-definition",
    note="the report site passes the whole assignment")
 _k("label-as-insn", "compile", "error", "meta-type-mismatch", "Â«li{u}Â» r0", pre=["li{u}: nop"])
 _k("constant-as-insn-without-comma", "compile", "error", "meta-type-mismatch", "Â«ci{u}Â» 3", pre=["ci{u} = 5"])
-_k("hash-in-directive", "compile", "warning", "excess-hash", ".word Â«#5Â»")
+_k("hash-in-directive", "compile", "error", "excess-hash", ".word Â«#5Â»",
+   note="an error in a metacommand (metacommand_impl.py), a warning in an instruction (insns.py)")
+_k("hash-in-implicit-immediate", "compile", "warning", "excess-hash", "trap Â«#5Â»")
 _k("meta-without-dot", "compile", "warning", "meta-typo", "Â«evenÂ»")
 _k("second-link", "compile", "error", "address-conflict", "Â«.link 2000Â»", pre=[".link 1000"], needs_no_link=True,
    note="the report site passes the whole metacommand")
@@ -164,15 +167,17 @@ _k("division-by-zero", "eval", "error", "arithmetic-error", ".word Â«5 / 0Â»")
 _k("modulo-by-zero", "eval", "error", "arithmetic-error", ".word 1 + Â«7 % 0Â»")
 _k("negative-shift", "eval", "error", "arithmetic-error", ".word Â«1 << (0 - 1)Â»")
 _k("register-as-value", "eval", "error", "unexpected-register", ".word Â«r1Â»")
-_k("autoincrement-as-value", "eval", "error", "unexpected-value", ".word Â«(1)+Â»")
+_k("autoincrement-as-value", "eval", "error", "unexpected-value", ".word (1)Â«+Â»",
+   note="postfix operator tokens span the operator only (parser.expression: operator(ctx_op, ctx_op_end, ...))")
 _k("deferred-as-value", "eval", "error", "unexpected-value", ".word Â«@5Â»")
-_k("immediate-as-value", "eval", "error", "unexpected-value", ".byte 0 + Â«#5Â»")
+_k("immediate-as-value", "eval", "error", "unexpected-value", ".word (Â«#5Â»)")
+_k("register-number-as-value", "eval", "error", "unexpected-value", ".word (Â«%5Â»)")
 _k("call-as-value", "eval", "error", "unexpected-value", ".word Â«5(2)Â»")
 _k("unencodable-string", "eval", "error", "invalid-character", "Â«.ascii \"aâ‚¬b\"Â»",
    note="the report site passes the whole '.ascii' statement, not the string")
 _k("unencodable-char-literal", "eval", "error", "invalid-character", "mov #Â«'â‚¬Â», r0")
 _k("rad50-bad-character", "eval", "error", "invalid-character", ".rad50 \"AB\" Â«\"a!\"Â»")
-_k("rad50-bad-code", "eval", "error", "value-out-of-bounds", ".rad50 \"AB\" Â«<50.>Â»")
+_k("rad50-bad-code", "eval", "error", "value-out-of-bounds", ".rad50 \"AB\"Â«<50.>Â»")
 _k("user-error", "eval", "error", "user-error", "Â«.error stop hereÂ»",
    note="the report site passes the whole '.error' statement")
 _k("missing-include", "eval", "error", "io-error", "Â«.include \"nofile{u}.mac\"Â»",
@@ -183,8 +188,13 @@ _k("align-zero", "eval", "error", "value-out-of-bounds", "Â«.align 0Â»",
    note="the report site passes the whole '.align' statement")
 _k("self-referential-constant", "eval", "error", "recursive-definition", "Â«sr{u} = sr{u} + 1Â»",
    note="the report site passes the whole assignment")
-_k("string-where-number-expected", "eval", "error", "type-mismatch", ".blkb 2\nÂ«.byte \"abc\"Â»", where="marker",
-   note="first span is the whole statement ('a number was expected as ...'), the second one the operand")
+_k("backward-skip", "eval", "error", "value-out-of-bounds", "Â«. = . - 2Â»", pre=[".link 1000"], needs_no_link=True, main_only=True,
+   note="the report site passes the whole assignment")
+_k("include-directory", "eval", "error", "io-error", "Â«.include \"dir{u}\"Â»", fs={"dir{u}": IsADirectoryError},
+   note="the report site passes the whole '.include' statement")
+_k("duplicate-export", "eval", "error", "duplicate-symbol", "Â«de{u}::Â» nop", pre=[".extern de{u}"])
+_k("invalid-code-point", "eval", "error", "value-out-of-bounds", ".ascii \"a\"<Â«2000000Â»>")
+_k("ascii-byte-too-large", "eval", "error", "value-out-of-bounds", ".ascii \"a\" <Â«400Â»> \"b\"")
 
 
 def kinds_by_phase():
